@@ -154,7 +154,11 @@ impl Report {
         self.samples.lock().unwrap().len()
     }
     pub fn note(&self, s: impl Into<String>) {
-        self.notes.lock().unwrap().push(s.into());
+        let s = s.into();
+        let mut n = self.notes.lock().unwrap();
+        if n.len() < 40 && !n.contains(&s) {
+            n.push(s);
+        }
     }
     pub fn inconclusive(&self, s: impl Into<String>) {
         self.inconclusive.lock().unwrap().push(s.into());
